@@ -304,6 +304,39 @@ print(json.dumps(call(sys.argv[2])))
                 out["bad"].append({"operator": "differentiating a value of a user subclass (%s)" % k, "fault": "after earlier calls on %s" % hist,
                                    "problems": ["fresh interpreter: %s ; after the history: %s" % (fresh[k][:300], got[:300])], "site": {"oracle": "operator-history"}})
                 break
+    # ---- short-lived function objects: an operator applied to a function that is garbage-collected right away, many
+    #      times over, with functions of other signatures in between (object ids are reused): every answer is the one a
+    #      fresh interpreter gives ----
+    from autograd.differential_operators import grad_named as _gn, value_and_grad as _vg, jacobian as _jac2
+    canaries2 = {
+        "grad_named(lambda y, x: x*y**3, 'y')": (lambda: float(_gn(lambda y, x: x * y ** 3, "y")(3.0, 2.0)), 54.0),
+        "grad_named(lambda x, y: x*y**3, 'y')": (lambda: float(_gn(lambda x, y: x * y ** 3, "y")(2.0, 3.0)), 54.0),
+        "grad(lambda y, x: x*y**3, 1)": (lambda: float(grad(lambda y, x: x * y ** 3, 1)(3.0, 2.0)), 27.0),
+        "value_and_grad(lambda a, b, c: a*b*c, 2)": (lambda: [float(t) for t in _vg(lambda a, b, c: a * b * c, 2)(2.0, 3.0, 5.0)], [30.0, 6.0]),
+        "jacobian(lambda u, v: u*v, 1)": (lambda: onp.asarray(_jac2(lambda u, v: u * v, 1)(onp.array([1.0, 2.0]), onp.array([3.0, 4.0]))).tolist(), [[1.0, 0.0], [0.0, 2.0]]),
+    }
+    out["n"] += 1
+    out["keys"].append("short-lived-functions-history")
+    probs2 = []
+    for k_ in range(120):
+        for unrelated in (lambda: _gn(lambda x, y, k=k_: x * y ** 3 + k, "x")(2.0, 3.0), lambda: _gn(lambda p, q, r, k=k_: p * q + r * k, "r")(1.0, 2.0, 3.0),
+                          lambda: grad(lambda s, t, k=k_: s * t + k, 1)(2.0, 3.0)):
+            try:
+                unrelated()
+            except Exception:
+                pass
+        for nm_, (th_, want_) in canaries2.items():
+            try:
+                got_ = th_()
+            except Exception as ex:
+                got_ = "raised %r" % (ex,)
+            if got_ != want_:
+                probs2.append("%s after %d rounds of unrelated calls on short-lived functions: %r, a fresh interpreter gives %r" % (nm_, k_ + 1, got_, want_))
+        if probs2:
+            break
+    if probs2:
+        out["bad"].append({"operator": "operators applied to short-lived function objects", "fault": "history of unrelated calls", "problems": probs2[:3],
+                           "site": {"oracle": "operator-history"}})
     repeat_outcomes("at the end, after every history above")
     # ---- a tracer that outlived its differentiation, used later as a plain constant ----
     for mode in ("rev", "fwd"):
